@@ -20,8 +20,10 @@ OUTCOMES = ("addSuccess", "addError", "addFailure", "addSkip", "addExpectedFailu
 FAILING = ("addError", "addFailure", "addUnexpectedSuccess")
 
 
-def outcome_call(name, receiver="r", test="test"):
-    """Source of one outcome call with the argument form that outcome takes."""
+def outcome_call(name, receiver="r", test="test", details=False):
+    """Source of one outcome call with the argument form that outcome takes (``details``: the extended form, with an empty details dict)."""
+    if details:
+        return f"{receiver}.{name}({test}, details={{}})"
     if name == "addSuccess":
         return f"{receiver}.addSuccess({test})"
     if name == "addUnexpectedSuccess":
@@ -41,6 +43,7 @@ class Scenario:
         # unittest.TestResult -- the base class testtools.TestResult keeps its lists and flags in -- is followed in the
         # standard library's own source
         self.dom.followed_externals = frozenset({("unittest.result", "TestResult")})
+        self.dom.closed_instances = True
         self.depth = depth
 
     def run(self, source, **args):
